@@ -1191,19 +1191,51 @@ _TARGETS = [
     ('emd.support', {'np': NP}),
     ('emd.logger', {}),
 ]
+_SKIP_MODULES = ('emd.logger', 'emd.plotting', 'emd.example', 'emd.tests')
+
+
+def _value_map():
+    """real object -> stand-in, so that the rebinding does not depend on the *names* the library uses for its imports:
+    `import numpy as np`, `import numpy`, `from scipy.interpolate import splrep, splev`, `from scipy.spatial import cKDTree`
+    and `from multiprocessing import Pool` are all covered."""
+    import multiprocessing as real_mp
+    m = {}
+    for real, proxy in ((real_np, NP), (real_interp, INTERP), (real_signal, SIGNAL), (real_sparse, SPARSE), (real_mp, MP)):
+        m[id(real)] = (real, proxy)
+        names = set(vars(type(proxy))) | set(vars(proxy))
+        for n in names:
+            if n.startswith('_') or not hasattr(real, n):
+                continue
+            ro = getattr(real, n)
+            try:
+                m[id(ro)] = (ro, getattr(proxy, n))
+            except Exception:
+                pass
+    m[id(REAL_CKDTREE)] = (REAL_CKDTREE, ckdtree_factory)
+    m[id(real_spatial)] = (real_spatial, real_spatial)      # attribute swapped below
+    return m
 
 
 @contextlib.contextmanager
 def installed():
     import importlib
+    import sys
     saved = []
     try:
-        for modname, repl in _TARGETS:
-            mod = importlib.import_module(modname)
-            for k, v in repl.items():
-                if hasattr(mod, k):
-                    saved.append((mod, k, getattr(mod, k)))
-                    setattr(mod, k, v)
+        for modname, _ in _TARGETS:
+            importlib.import_module(modname)
+        vm = _value_map()
+        for modname in sorted(sys.modules):
+            if not (modname == 'emd' or modname.startswith('emd.')) or modname.startswith(_SKIP_MODULES):
+                continue
+            mod = sys.modules[modname]
+            if mod is None:
+                continue
+            for k, v in list(vars(mod).items()):
+                hit = vm.get(id(v))
+                if hit is not None and hit[0] is v and hit[1] is not v:
+                    saved.append((mod, k, v))
+                    setattr(mod, k, hit[1])
         RNG.reset()
         InlinePool.log = []
         InlinePool.npools = 0
